@@ -806,8 +806,16 @@ func (x *Exec) resolveTypeExpr(e ast.Expr, env *Env) types.Type {
 		}
 	case *ast.SelectorExpr:
 		if id, ok := n.X.(*ast.Ident); ok {
+			path := ""
+			for _, f := range x.fi.Pkg.Syntax {
+				for _, is := range f.Imports {
+					if is.Name != nil && is.Name.Name == id.Name {
+						path = strings.Trim(is.Path.Value, `"`)
+					}
+				}
+			}
 			for _, imp := range x.fi.Pkg.Types.Imports() {
-				if imp.Name() == id.Name {
+				if imp.Name() == id.Name || imp.Path() == path {
 					if obj := imp.Scope().Lookup(n.Sel.Name); obj != nil {
 						return obj.Type()
 					}
